@@ -60,7 +60,10 @@ Induced(e, m) == {<<Renum(m, p[1]), Renum(m, p[2])>> : p \in {q \in e : q[1] \in
 Masks(n) == (SUBSET Vs(n)) \ {{}}
 \* queries are observers: a graph object answers every query as a function of its edges alone, whatever was asked before.
 \* The adapter replays each order ("w": weighted, "u": hop-count shortest paths) on ONE object per order.
-QueryOrders == {<<"w", "u", "w">>, <<"u", "w", "u">>, <<"w", "w", "u">>, <<"u", "u", "w">>}
+\* ("w" / "u": weighted / hop-count all-pairs distances and routes; "p": find_path between every pair; "m": a minimum spanning
+\*  tree (undirected graphs); "q": the read-only structure queries.  None of them may change what a later one answers.)
+QueryOrders == {<<"w", "u", "w">>, <<"u", "w", "u">>, <<"w", "w", "u">>, <<"u", "u", "w">>,
+                <<"p", "w", "u">>, <<"m", "w">>, <<"q", "w", "p", "u">>, <<"p", "m", "q", "w">>}
 \* Prim's algorithm (scales to the random graphs; PrimIsMST checks it against the minimum over ALL spanning trees on small graphs)
 RECURSIVE Prim(_, _, _, _)
 Prim(e, inT, w, n) == IF inT = Vs(n) THEN w
